@@ -85,8 +85,10 @@ type c09World struct {
 	anns       []c09Ann
 	seqN       int64
 	holdProbes atomic.Bool
-	ops        []porcupine.Operation
-	swept      map[string]int
+	// sharePhantom puts every registration on one phantom address
+	sharePhantom bool
+	ops          []porcupine.Operation
+	swept        map[string]int
 }
 
 func (w *c09World) seq() int64 { w.seqN++; return w.seqN }
@@ -155,6 +157,9 @@ func (w *c09World) mkReg(secret int, tt pb.TransportType, v6 bool, covert string
 	src := pb.RegistrationSource_API
 	t := w.rm.registeredDecoys.transports[tt]
 	ph := net.IPv4(192, 0, 2, byte(20+secret)).To4()
+	if w.sharePhantom {
+		ph = net.IPv4(192, 0, 2, 20).To4()
+	}
 	if v6 {
 		ph = net.ParseIP(fmt.Sprintf("2001:db8::%x", 20+secret))
 	}
@@ -290,7 +295,9 @@ var c09Model = porcupine.Model{
 		}
 		return true, st
 	},
-	Equal: func(a, b interface{}) bool { return fmt.Sprint(c09Sorted(a.(map[string]int))) == fmt.Sprint(c09Sorted(b.(map[string]int))) },
+	Equal: func(a, b interface{}) bool {
+		return fmt.Sprint(c09Sorted(a.(map[string]int))) == fmt.Sprint(c09Sorted(b.(map[string]int)))
+	},
 }
 
 func c09Sorted(m map[string]int) []string {
@@ -306,7 +313,7 @@ func c09Sorted(m map[string]int) []string {
 
 // ---- test entry ----------------------------------------------------------------
 
-var c09Scenarios = []string{"dup-ingest", "mixed-covert", "ingest-vs-sweep", "overload", "shutdown-idle", "shutdown-busy", "reload"}
+var c09Scenarios = []string{"dup-ingest", "mixed-covert", "ingest-vs-sweep", "sweep-sibling", "overload", "shutdown-idle", "shutdown-busy", "reload"}
 
 func TestVerifC09(t *testing.T) {
 	sim.Main(t, sim.Config{
@@ -314,14 +321,14 @@ func TestVerifC09(t *testing.T) {
 		Scenario: c09Scenario,
 		ExhaustRoots: func(tier string) [][]int {
 			// systematic: the two 2-task ingest scenarios, bounded preemptions
-			return [][]int{{1, 0}, {1, 1}, {1, 2}}
+			return [][]int{{1, 0}, {1, 1}, {1, 2}, {1, 3}}
 		},
 		ExhaustMax: map[string]int{"quick": 6000, "thorough": 400000},
 		Runs:       map[string]int{"quick": 40000, "thorough": 4000000},
 		LeakSig:    "C09/goroutine-left-after-shutdown",
 		Real:       []string{"RegistrationManager.ingestRegistration (exists / track / covert / liveness / validate windows)", "RegisteredDecoys (lock, both maps, announce-once guard, sweeper collect-then-remove)", "HandleRegUpdates / startIngestThread (worker pool, shallow buffer, non-blocking hand-off, cancellation)", "GetRegistrations / CountRegistrations / MarkActive / RemoveOldRegistrations / OnReload", "min / prefix identifiers"},
 		Stub:       []string{"goroutine scheduling and the package's mutexes (simulator; emulated sync.RWMutex)", "liveness tester (table; probe begin/end are yield points; can hold workers inside a probe)", "resolver (yield point)", "detector (announcement recorder)", "parseRegMessage (harness builds the DecoyRegistration objects for the direct-ingest scenarios; the pipeline scenarios feed real marshalled messages)"},
-		Rule: "systematic: every schedule with at most 2 preemptions (at lock operations, probe and resolver yields) of the three small scenarios {2 workers ingesting the same registration, same identifier with one acceptable and one forbidden covert, ingest vs sweep vs lookup}; random: 7 scenarios (plus overload, shutdown with idle / busy input, reload) with 2-5 tasks under uniform / stay-biased schedules. " +
+		Rule: "systematic: every schedule with at most 2 preemptions (at lock operations, probe and resolver yields) of the four small scenarios {2 workers ingesting the same registration, same identifier with one acceptable and one forbidden covert, ingest vs sweep vs lookup-then-activate, the same with a fresh second registration sharing the expired one's phantom}; random: 8 scenarios (plus overload, shutdown with idle / busy input, reload) with 2-5 tasks under uniform / stay-biased schedules. " +
 			"Oracles: exactly one New per registration lifetime, visibility only after the registration's own admission, no lost regCount update, map bijection, no panic, no deadlock, dropped == offered - accepted with a non-blocking distributor, bounded shutdown, porcupine linearizability of {ingest, lookup} histories against a sequential registry. non-trivial = two tasks overlapped; distinct = schedule signatures",
 		Assume: []string{"the data-race clause cannot be decided under a cooperative scheduler (every hand-off is a synchronisation edge); it is covered by the auxiliary race-detector run of the thorough tier, reported separately", "code between two lock operations runs atomically"},
 	})
@@ -337,7 +344,7 @@ func c09Scenario(r *sim.Run) {
 	systematic := tp.Choose("mode", 2) == 1
 	var scn string
 	if systematic {
-		scn = c09Scenarios[tp.Choose("scn", 3)]
+		scn = c09Scenarios[tp.Choose("scn", 4)]
 		s.MaxPreempt = 2
 	} else {
 		scn = c09Scenarios[tp.Choose("scn", len(c09Scenarios))]
@@ -348,7 +355,7 @@ func c09Scenario(r *sim.Run) {
 	r.Logf("C09 scenario %s", scn)
 	r.Cover(scn)
 	switch scn {
-	case "dup-ingest", "mixed-covert", "ingest-vs-sweep":
+	case "dup-ingest", "mixed-covert", "ingest-vs-sweep", "sweep-sibling":
 		c09Direct(r, s, scn, systematic)
 	case "overload":
 		c09Overload(r, s)
@@ -373,8 +380,16 @@ func c09Direct(r *sim.Run, s *hook.Sched, scn string, systematic bool) {
 	}
 	var jobs []job
 	nworkers := 2
+	sweep := scn == "ingest-vs-sweep" || scn == "sweep-sibling"
+	w.sharePhantom = scn == "sweep-sibling"
+	if scn == "sweep-sibling" {
+		nworkers = 1
+	}
 	if !systematic {
 		nworkers = 2 + tp.Choose("nworkers", 2)
+		if scn == "sweep-sibling" {
+			nworkers = 1 + tp.Choose("nworkers", 2)
+		}
 	}
 	coverts := []string{"203.0.113.7:443", "10.1.2.3:443", "ok.example:443", "internal.example:443", "203.0.113.8:443"}
 	switch scn {
@@ -407,11 +422,18 @@ func c09Direct(r *sim.Run, s *hook.Sched, scn string, systematic bool) {
 		w.live["192.0.2.20"] = true
 	}
 	// ingest-vs-sweep: an expired registration of the same key is present
-	if scn == "ingest-vs-sweep" {
+	if scn == "ingest-vs-sweep" || scn == "sweep-sibling" {
 		old := w.mkReg(0, pb.TransportType_Min, false, "203.0.113.7:443")
 		w.rm.ingestRegistration(old)
 		time.Sleep(10*time.Minute + time.Second)
 		r.Logf("an unused registration of key %s is 10 min 1 s old", c09Key(old))
+		if scn == "sweep-sibling" {
+			// a fresh registration of another client on the same phantom: the sweep removes one entry
+			// of the phantom's table, not the table
+			sib := w.mkReg(2, pb.TransportType_Min, false, "203.0.113.8:443")
+			w.rm.ingestRegistration(sib)
+			r.Logf("a fresh registration %s shares its phantom", c09Key(sib))
+		}
 	}
 	tracked := map[string]int{} // key -> ingest calls that reached tracking
 	var histMu sync.Mutex
@@ -445,12 +467,12 @@ func c09Direct(r *sim.Run, s *hook.Sched, scn string, systematic bool) {
 			record(porcupine.Operation{ClientId: i, Input: c09In{"ingest", key, adm}, Call: call, Output: c09Out{announced: ann}, Return: ret})
 		})
 	}
-	if scn == "ingest-vs-sweep" {
+	if sweep {
 		w.spawn("sweeper", func() {
 			w.rm.RemoveOldRegistrations()
 		})
 	}
-	withLookup := scn == "ingest-vs-sweep" || (!systematic && tp.Bool("lookup-task"))
+	withLookup := sweep || (!systematic && tp.Bool("lookup-task"))
 	if withLookup {
 		w.spawn("handler", func() {
 			ph := net.IPv4(192, 0, 2, 20).To4()
@@ -461,8 +483,13 @@ func c09Direct(r *sim.Run, s *hook.Sched, scn string, systematic bool) {
 				n := w.rm.CountRegistrations(ph)
 				regs := w.rm.GetRegistrations(ph)
 				var vis []string
-				for _, rg := range regs {
-					d := rg.(*DecoyRegistration)
+				var ids []string
+				for id := range regs {
+					ids = append(ids, id)
+				}
+				sort.Strings(ids) // not the map's iteration order: one tape, one execution
+				for _, id := range ids {
+					d := regs[id].(*DecoyRegistration)
 					vis = append(vis, c09Key(d))
 					w.rm.MarkActive(d)
 				}
@@ -509,7 +536,7 @@ func c09Direct(r *sim.Run, s *hook.Sched, scn string, systematic bool) {
 	sort.Strings(keys)
 	for _, k := range keys {
 		lifetimes := 1
-		if scn == "ingest-vs-sweep" {
+		if sweep {
 			lifetimes = 2 // the old registration's lifetime and, if it was swept, a new one
 		}
 		if news[k] > lifetimes {
@@ -535,7 +562,7 @@ func c09Direct(r *sim.Run, s *hook.Sched, scn string, systematic bool) {
 				}
 			}
 			// no lost update of the duplicate counter
-			if scn != "ingest-vs-sweep" && int(d.regCount) != tracked[k] {
+			if !sweep && int(d.regCount) != tracked[k] {
 				if r.Fail("C09/lost-update/regcount", "registration %s: %d ingests reached tracking but regCount is %d", k, tracked[k], d.regCount) {
 					return
 				}
@@ -548,7 +575,7 @@ func c09Direct(r *sim.Run, s *hook.Sched, scn string, systematic bool) {
 		}
 	}
 	// linearizability of {ingest, lookup}
-	if scn != "ingest-vs-sweep" && len(w.ops) > 0 && len(w.ops) <= 40 {
+	if !sweep && len(w.ops) > 0 && len(w.ops) <= 40 {
 		res := porcupine.CheckOperationsTimeout(c09Model, w.ops, 20*time.Second)
 		if res == porcupine.Illegal {
 			var hs []string
@@ -672,6 +699,12 @@ func c09UseSelector(w *c09World) bool {
 func c09Shutdown(r *sim.Run, s *hook.Sched, busy bool) {
 	tp := r.Tape
 	workers := 1 + tp.Choose("workers", 3)
+	// a pool large enough for the shallow buffer to exist (workers / 10 slots): the stop request can
+	// then arrive while registrations are queued in front of busy workers
+	bigPool := busy && tp.Prob("big-pool", 1, 3)
+	if bigPool {
+		workers = 20 + tp.Choose("pool", 12)
+	}
 	w := newC09World(r, s, workers)
 	defer s.Finish()
 	if !c09UseSelector(w) {
@@ -692,8 +725,22 @@ func c09Shutdown(r *sim.Run, s *hook.Sched, busy bool) {
 	before := tp.Choose("before", 4)
 	var cancelledAt time.Duration
 	stop := false
+	if bigPool {
+		before = 0
+		r.Probe("shutdown_with_queued_registrations")
+	}
 	w.spawn("controller", func() {
 		hook.ParkIdle("workers-started")
+		if bigPool {
+			// every worker is held inside its probe, then the buffer is filled
+			w.holdProbes.Store(true)
+			queued := workers/jobBufferDivisor - tp.Choose("slots-left", 2)
+			for i := 0; i < workers+queued; i++ {
+				regChan <- w.message(20+i, "203.0.113.7:443")
+				hook.ParkIdle("published")
+			}
+			r.Logf("%d workers busy, %d registrations queued behind them", workers, queued)
+		}
 		for i := 0; i < before; i++ {
 			regChan <- w.message(i, "203.0.113.7:443")
 			hook.Yield("sent")
@@ -704,6 +751,10 @@ func c09Shutdown(r *sim.Run, s *hook.Sched, busy bool) {
 		cancelledAt = r.Elapsed()
 		r.Logf("stop requested (context cancelled), input channel %s", map[bool]string{true: "busy", false: "idle"}[busy])
 		cancel()
+		if bigPool {
+			hook.Yield("stop-requested")
+			w.holdProbes.Store(false)
+		}
 		if busy {
 			// registrations keep arriving for a while
 			for i := 0; i < 5 && !stop; i++ {
@@ -807,5 +858,5 @@ func c09PhantomSelector() (*phantoms.PhantomIPSelector, error) {
 	return phantoms.SubnetsFromTomlFile(p)
 }
 
-func c09GeoIP() geoip.Database { return &geoip.EmptyDatabase{} }
+func c09GeoIP() geoip.Database   { return &geoip.EmptyDatabase{} }
 func c09MinTransport() Transport { return min.Transport{} }
